@@ -2430,7 +2430,10 @@ class BDD(dd._abc.BDD[_Ref]):
             else:
                 j = self.add_var(var)
             level_map[i] = j
-        umap = dict()
+        # The terminal node is the same in
+        # the file and in `self`. Mapping it
+        # is needed when a root is constant.
+        umap = {1: 1}
         for u in succ:
             # already added ?
             if u in umap:
